@@ -243,3 +243,288 @@ def run(ctx, rep):
             conj_checks(g, 3, list(itertools.permutations(range(3))))
     rep.stats["consteval_functions"] = len(ce.funcs_entered)
     rep.stats["consteval_steps"] = ce.steps
+
+
+# ------------------------------------------------------------------------------ Y8: states and legacy constructors
+ST = "quara.objects.state_typical."
+LEGACY_GATES = {"get_i": "identity", "get_x": "x", "get_y": "y", "get_z": "z", "get_h": "hadamard", "get_root_x": "x90", "get_root_y": "y90",
+                "get_s": "phase", "get_sdg": "phase_daggered", "get_t": "piover8", "get_cnot": "cx", "get_cz": "cz", "get_swap": "swap"}
+LEGACY_STATES = {"get_x0_1q": "x0", "get_x1_1q": "x1", "get_y0_1q": "y0", "get_y1_1q": "y1", "get_z0_1q": "z0", "get_z1_1q": "z1",
+                 "get_bell_2q": "bell_phi_plus"}
+
+
+def run_states(ctx, rep):
+    ix = ctx.ix
+    ce = ConstEval(ctx, max_depth=10)
+    thorough = ctx.tier == "thorough"
+    rep.rule("Y8", "named states: every catalogued pure-state vector is normalised and its density matrix is v v^†; x/y/z names are the "
+                   "+1 / -1 eigenvectors of the Pauli matrix they name; a composite name a_b is the Kronecker product of its parts; the "
+                   "four Bell names have the stabiliser signs their names say; the legacy constructors of state.py / gate.py hold the same "
+                   "tables as the catalogue", floor=35)
+    gen_v = ix.funcs.get(ST + "generate_state_pure_state_vector_from_name")
+    gen_r = ix.funcs.get(ST + "generate_state_density_mat_from_name")
+    if gen_v is None or gen_r is None:
+        raise AnalysisError("state_typical generators not found")
+
+    def names(q):
+        return list(ce.call(ix.funcs[ST + q], []))
+    cats = {}
+    for cat in ("get_state_names_1qubit", "get_state_names_2qubit", "get_state_names_3qubit", "get_state_names_1qutrit", "get_state_names_2qutrit"):
+        try:
+            cats[cat] = names(cat)
+        except NotConst as ex:
+            rep.undecided("Y8", ix.funcs[ST + cat], cat, "catalogue is not constant: %s" % ex)
+    vec = {}
+    budget = None if thorough else 120
+    for cat, ns in cats.items():
+        todo = ns if budget is None else ns[:budget]
+        bad_norm, bad_rho, nc = [], [], []
+        for n in todo:
+            try:
+                ce.steps = 0
+                v = np.asarray(ce.call(gen_v, [n]), dtype=complex)
+                ce.steps = 0
+                r = np.asarray(ce.call(gen_r, [n]), dtype=complex)
+            except NotConst as ex:
+                nc.append((n, str(ex)))
+                continue
+            vec[n] = v
+            if abs(np.vdot(v, v) - 1) > 1e-12:
+                bad_norm.append(n)
+            if not close(r, np.outer(v, v.conj())):
+                bad_rho.append(n)
+        f = ix.funcs[ST + cat]
+        if nc:
+            rep.undecided("Y8", f, "%s: constant evaluation" % cat, "%d name(s) outside the constant fragment, e.g. %s" % (len(nc), nc[0]))
+        rep.check(not bad_norm, "Y8", gen_v, "%s: %d vectors normalised" % (cat, len(todo)), "all of norm 1",
+                  "state vector(s) %s do not have norm 1" % bad_norm[:5], node=f.node)
+        rep.check(not bad_rho, "Y8", gen_r, "%s: density matrix = v v^†" % cat, "agree", "density matrix of %s is not the projector on its vector" % bad_rho[:5],
+                  node=f.node)
+    # naming
+    for n, v in sorted(vec.items()):
+        if len(n) == 2 and n[0] in "xyz" and n[1] in "01":
+            P = PAULI["ixyz".index(n[0])]
+            sign = 1 if n[1] == "0" else -1
+            f = ix.funcs.get(ST + "get_state_%s_pure_state_vector" % n) or gen_v
+            rep.check(close(P @ v, sign * v), "Y8", f, "state %s is the %+d eigenvector of sigma_%s" % (n, sign, n[0]), "holds",
+                      "the vector catalogued as %s is not the %+d eigenvector of sigma_%s" % (n, sign, n[0]), node=f.node)
+    bell = {"bell_phi_plus": (1, 1), "bell_phi_minus": (-1, 1), "bell_psi_plus": (1, -1), "bell_psi_minus": (-1, -1)}
+    XX, ZZ = np.kron(PAULI[1], PAULI[1]), np.kron(PAULI[3], PAULI[3])
+    for n, (sx, sz) in bell.items():
+        if n in vec:
+            f = ix.funcs.get(ST + "get_state_bell_pure_state_vector") or gen_v
+            v = vec[n]
+            rep.check(close(XX @ v, sx * v) and close(ZZ @ v, sz * v), "Y8", f, "state %s: XX = %+d, ZZ = %+d" % (n, sx, sz), "holds",
+                      "the vector catalogued as %s does not have the stabiliser signs (XX, ZZ) = (%+d, %+d)" % (n, sx, sz), node=f.node)
+    comp_bad = []
+    n_comp = 0
+    for n, v in vec.items():
+        parts = n.split("_")
+        if len(parts) > 1 and all(p in vec for p in parts):
+            n_comp += 1
+            w = vec[parts[0]]
+            for p in parts[1:]:
+                w = np.kron(w, vec[p])
+            if not close(v, w):
+                comp_bad.append(n)
+    rep.check(not comp_bad, "Y8", gen_v, "%d composite names = Kronecker product of their parts (left to right)" % n_comp, "agree",
+              "composite state(s) %s are not the left-to-right Kronecker product of their parts" % comp_bad[:5], node=gen_v.node)
+    # legacy constructors
+    B1 = _textbook_basis(1)
+    for fn_name, cat_name in LEGACY_STATES.items():
+        f = ix.funcs.get("quara.objects.state." + fn_name)
+        if f is None or cat_name not in vec:
+            continue
+        lits = [x for x in ce.literals(f) if x[0] == "from_vec"]
+        con = "state.%s vs catalogue '%s'" % (fn_name, cat_name)
+        if len(lits) != 1:
+            rep.undecided("Y8", f, con, "expected one literal coefficient vector `from_vec`")
+            continue
+        lv = np.asarray(lits[0][1], dtype=complex)
+        v = vec[cat_name]
+        rho = np.outer(v, v.conj())
+        if lv.shape[0] == 4:
+            want = np.array([np.trace(b.conj().T @ rho) for b in B1])
+        else:
+            want = rho.flatten()          # get_bell_2q writes the density matrix in the computational basis, row-major
+        rep.check(close(lv, want), "Y8", f, con, "same state", "the literal vector of %s is not the catalogue state '%s' (largest deviation %.3g)"
+                  % (fn_name, cat_name, float(np.max(np.abs(lv - want)))), node=lits[0][3])
+    B2 = _textbook_basis(2)
+    for fn_name, g in LEGACY_GATES.items():
+        f = ix.funcs.get("quara.objects.gate." + fn_name)
+        if f is None:
+            continue
+        con = "gate.%s vs catalogue '%s'" % (fn_name, g)
+        uq = ix.funcs.get(G + "generate_gate_%s_unitary_mat" % g)
+        lits = ce.literals(f)
+        pa = [x for x in lits if x[0] == "matrix" and np.asarray(x[1]).shape == (4, 4)]
+        cb = [x for x in lits if x[0] == "hs_comp_basis" and np.asarray(x[1]).shape == (16, 16)]
+        if g == "identity":
+            if len(pa) == 1:
+                rep.check(close(np.asarray(pa[0][1]), np.eye(4)), "Y8", f, con, "identity", "literal is not the identity", node=pa[0][3])
+            else:
+                rep.info("Y8", f, con, "no literal table (built by np.eye)")
+            continue
+        if uq is None:
+            rep.undecided("Y8", f, con, "catalogue unitary not found")
+            continue
+        try:
+            if pa and len(pa) == 1:
+                u = np.asarray(ce.call(uq, []), dtype=complex)
+                want = _hs_of_unitary(u, B1)
+                rep.check(close(np.asarray(pa[0][1]), want), "Y8", f, con, "same Hilbert-Schmidt table",
+                          "the Pauli-basis table of gate.%s is not the channel of the catalogue unitary '%s' (largest deviation %.3g)"
+                          % (fn_name, g, float(np.max(np.abs(np.asarray(pa[0][1]) - want)))), node=pa[0][3])
+            elif cb:
+                for (nm, val, guards, node) in cb:
+                    if "ids" in uq.params:
+                        # first branch of get_cnot: the control is elemental system 0
+                        first = not guards or guards[-1][1]
+                        u = np.asarray(ce.call(uq, [[0, 1] if first else [1, 0]]), dtype=complex)
+                        tag = " (control = system %d)" % (0 if first else 1)
+                    else:
+                        u = np.asarray(ce.call(uq, []), dtype=complex)
+                        tag = ""
+                    want = np.kron(u, u.conj())
+                    rep.check(close(np.asarray(val), want), "Y8", f, con + tag, "same computational-basis table kron(U, conj U)",
+                              "the computational-basis table of gate.%s%s is not kron(U, conj U) of the catalogue unitary '%s'" % (fn_name, tag, g), node=node)
+            else:
+                rep.undecided("Y8", f, con, "no literal table found in the constructor")
+        except NotConst as ex:
+            rep.undecided("Y8", f, con, "catalogue unitary not constant: %s" % ex)
+    rep.stats["Y8_states_evaluated"] = len(vec)
+
+
+# ------------------------------------------------------------------------------ Y9: POVM and measurement-process tables
+PT = "quara.objects.povm_typical."
+MT = "quara.objects.mprocess_typical."
+
+
+def _psd(m, tol=1e-10):
+    m = np.asarray(m, dtype=complex)
+    if not close(m, m.conj().T):
+        return False
+    return bool(np.min(np.linalg.eigvalsh((m + m.conj().T) / 2)) >= -tol)
+
+
+def run_measurements(ctx, rep):
+    ix = ctx.ix
+    ce = ConstEval(ctx, max_depth=12)
+    thorough = ctx.tier == "thorough"
+    rep.rule("Y9", "named measurements: POVM elements are positive and sum to the identity; rank-1 names are the projectors on their "
+                   "pure-state vectors; x / y / z are the projectors on the catalogued states x0,x1 / y0,y1 / z0,z1; composite names are "
+                   "Kronecker products of their parts (first part = slow index); the legacy vectors of povm.py are the same elements; every "
+                   "named measurement process is trace preserving in total and measures the POVM of its base name", floor=30)
+    gm = ix.funcs.get(PT + "generate_povm_matrices_from_name")
+    gv = ix.funcs.get(PT + "generate_povm_pure_state_vectors_from_name")
+    gs = ix.funcs.get(ST + "generate_state_pure_state_vector_from_name")
+    if gm is None or gv is None or gs is None:
+        raise AnalysisError("povm_typical generators not found")
+    rank1 = set(ce.call(ix.funcs[PT + "get_povm_names_rank1"], []))
+    mats = {}
+    for cat in ("get_povm_names_1qubit", "get_povm_names_2qubit", "get_povm_names_3qubit", "get_povm_names_1qutrit", "get_povm_names_2qutrit"):
+        f = ix.funcs[PT + cat]
+        try:
+            ns = list(ce.call(f, []))
+        except NotConst as ex:
+            rep.undecided("Y9", f, cat, "catalogue not constant: %s" % ex)
+            continue
+        todo = ns if thorough else ns[:30]
+        bad_sum, bad_psd, bad_r1, nc = [], [], [], []
+        for n in todo:
+            try:
+                ce.steps = 0
+                ms = [np.asarray(x, dtype=complex) for x in ce.call(gm, [n])]
+            except NotConst as ex:
+                nc.append((n, str(ex)[:80]))
+                continue
+            mats[n] = ms
+            d = ms[0].shape[0]
+            if not close(sum(ms), np.eye(d)):
+                bad_sum.append(n)
+            if not all(_psd(m) for m in ms):
+                bad_psd.append(n)
+            if all(p in rank1 for p in n.split("_")):
+                try:
+                    ce.steps = 0
+                    vs = [np.asarray(x, dtype=complex) for x in ce.call(gv, [n])]
+                    if len(vs) != len(ms) or not all(close(m, np.outer(v, v.conj())) for m, v in zip(ms, vs)):
+                        bad_r1.append(n)
+                except NotConst as ex:
+                    nc.append((n, str(ex)[:80]))
+        if nc:
+            rep.undecided("Y9", f, "%s: constant evaluation" % cat, "%d name(s) outside the fragment, e.g. %s" % (len(nc), nc[0]))
+        rep.check(not bad_sum, "Y9", gm, "%s: %d POVMs sum to the identity" % (cat, len(todo)), "holds", "elements of %s do not sum to the identity" % bad_sum[:5], node=f.node)
+        rep.check(not bad_psd, "Y9", gm, "%s: elements positive semidefinite" % cat, "holds", "%s have a non-positive element" % bad_psd[:5], node=f.node)
+        rep.check(not bad_r1, "Y9", gv, "%s: rank-1 elements = projectors on the listed vectors" % cat, "holds",
+                  "matrices and pure-state vectors of %s disagree" % bad_r1[:5], node=f.node)
+    # x / y / z vs the state catalogue
+    for a in "xyz":
+        if a in mats:
+            try:
+                v0 = np.asarray(ce.call(gs, [a + "0"]), dtype=complex)
+                v1 = np.asarray(ce.call(gs, [a + "1"]), dtype=complex)
+            except NotConst as ex:
+                rep.undecided("Y9", gs, "POVM %s vs states" % a, str(ex))
+                continue
+            ok = len(mats[a]) == 2 and close(mats[a][0], np.outer(v0, v0.conj())) and close(mats[a][1], np.outer(v1, v1.conj()))
+            rep.check(ok, "Y9", gm, "POVM %s = {|%s0><%s0|, |%s1><%s1|}" % (a, a, a, a, a), "holds",
+                      "the elements of POVM '%s' are not the projectors on the catalogued states %s0, %s1 in this order" % (a, a, a), node=gm.node)
+    # composites
+    bad_c, n_c = [], 0
+    for n, ms in mats.items():
+        parts = n.split("_")
+        if len(parts) > 1 and all(p in mats for p in parts):
+            n_c += 1
+            acc = mats[parts[0]]
+            for p in parts[1:]:
+                acc = [np.kron(x, y) for x, y in itertools.product(acc, mats[p])]
+            if len(acc) != len(ms) or not all(close(x, y) for x, y in zip(acc, ms)):
+                bad_c.append(n)
+    rep.check(not bad_c, "Y9", gm, "%d composite POVM names = Kronecker products of their parts, first part slowest" % n_c, "holds",
+              "composite POVM(s) %s are not the ordered Kronecker product of their parts" % bad_c[:5], node=gm.node)
+    # legacy vectors of povm.py
+    B1 = _textbook_basis(1)
+    for a in "xyz":
+        f = ix.funcs.get("quara.objects.povm._get_%s_povm_vecs" % a)
+        if f is None or a not in mats:
+            continue
+        try:
+            vs = [np.asarray(x, dtype=complex) for x in ce.call(f, [])]
+        except NotConst as ex:
+            rep.undecided("Y9", f, "legacy %s vectors" % a, str(ex))
+            continue
+        want = [np.array([np.trace(b.conj().T @ m) for b in B1]) for m in mats[a]]
+        rep.check(len(vs) == len(want) and all(close(x, y) for x, y in zip(vs, want)), "Y9", f, "povm._get_%s_povm_vecs vs catalogue '%s'" % (a, a),
+                  "same elements", "the legacy coefficient vectors of the %s POVM are not the catalogue's elements" % a, node=f.node)
+    # measurement processes
+    gk = ix.funcs.get(MT + "generate_mprocess_set_kraus_matrices_from_name")
+    gpm1 = ix.funcs.get(PT + "_generate_povm_matrices_from_single_name")
+    if gk is None or gpm1 is None:
+        raise AnalysisError("mprocess_typical generators not found")
+    for cat in ("get_mprocess_names_type1", "get_mprocess_names_type2"):
+        f = ix.funcs[MT + cat]
+        try:
+            ns = list(ce.call(f, []))
+        except NotConst as ex:
+            rep.undecided("Y9", f, cat, "catalogue not constant: %s" % ex)
+            continue
+        for n in ns:
+            con = "measurement process %s" % n
+            try:
+                ce.steps = 0
+                ks = [[np.asarray(k, dtype=complex) for k in row] for row in ce.call(gk, [n])]
+                base = n.split("-")[0]
+                ce.steps = 0
+                pm = [np.asarray(x, dtype=complex) for x in ce.call(gpm1, [base])]
+            except NotConst as ex:
+                rep.undecided("Y9", gk, con, "not constant: %s" % str(ex)[:100])
+                continue
+            eff = [sum(k.conj().T @ k for k in row) for row in ks]
+            d = eff[0].shape[0]
+            tp = close(sum(eff), np.eye(d))
+            same = len(eff) == len(pm) and all(close(x, y) for x, y in zip(eff, pm))
+            rep.check(tp and same, "Y9", gk, con, "sum_x sum_j K^† K = 1 and the measured POVM is '%s'" % base,
+                      ("the Kraus operators of %s are not trace preserving in total" % n) if not tp else
+                      ("the POVM measured by %s (sum_j K^† K per outcome) is not the catalogued POVM '%s'" % (n, base)), node=f.node)
+    rep.stats["Y9_povms_evaluated"] = len(mats)
